@@ -48,16 +48,30 @@ def packedBytes (m : UInt32) (s : UInt8) (k : Nat) : Bytes :=
   | 4 => [b0 ||| 0x80, g0 ||| 0x80, g1 ||| 0x80, g2]
   | _ => [b0 ||| 0x80, g0 ||| 0x80, g1 ||| 0x80, g2 ||| 0x80, g3]
 
-/-- an `i32` other than `i32::MIN` in at least `w` bytes (a writer may pad with zero groups) -/
+/-- the 7-bit groups of a magnitude that does not fit 31 bits (Havok INT members can hold 64-bit
+values), little end first, continuation flag on all but the last -/
+def wideTail : Nat → Nat → Bytes
+  | 0, _ => []
+  | fuel + 1, m => if m < 128 then [UInt8.ofNat m] else UInt8.ofNat (128 + m % 128) :: wideTail fuel (m / 128)
+
+/-- an integer in at least `w` bytes (a writer may pad with zero groups): up to five bytes for an `i32`
+other than `i32::MIN`, up to ten for wider values -/
 def encodePackedIntW (w : Nat) (n : Int) : Bytes :=
-  let m := UInt32.ofNat n.natAbs
-  packedBytes m (if n < 0 then 1 else 0) (max (min w 5) (minWidth m))
+  if n.natAbs < 2 ^ 31 then
+    let m := UInt32.ofNat n.natAbs
+    packedBytes m (if n < 0 then 1 else 0) (max (min w 5) (minWidth m))
+  else
+    UInt8.ofNat (128 + (n.natAbs % 64) * 2 + (if n < 0 then 1 else 0)) :: wideTail 10 (n.natAbs / 64)
 
 /-- the shortest form -/
 def encodePackedInt (n : Int) : Bytes := encodePackedIntW 1 n
 
 def InRange (n : Int) : Prop := -(2 ^ 31) < n ∧ n < 2 ^ 31
 instance (n : Int) : Decidable (InRange n) := by unfold InRange; infer_instance
+
+/-- what an INT value of the format can be (up to 64 bits); the reader keeps an `i32` -/
+def Wide (n : Int) : Prop := n.natAbs < 2 ^ 63
+instance (n : Int) : Decidable (Wide n) := by unfold Wide; infer_instance
 
 /-! ### bit fields -/
 
@@ -386,7 +400,7 @@ mutual
 /-- `v` is a well-formed value (or column of `n` elements when `col`) for base type `base` -/
 def bodyOK (decls : List TypeDecl) (nobjs : Nat) (base : Nat) (cls : Bytes) (n : Option Nat) : Val → Bool
   | .bytes l => base == 1 && n.all (· == l.length)
-  | .ints kind l => base == 2 && decide (InRange kind) && l.all (fun v => decide (InRange v)) && n.all (· == l.length)
+  | .ints kind l => base == 2 && decide (InRange kind) && l.all (fun v => decide (Wide v)) && n.all (· == l.length)
   | .reals l => base == 3 && n.all (· == l.length)
   | .strs l => base == 10 && l.all okString && n.all (· == l.length)
   | .refs l => base == 8 && l.all (· ≤ nobjs) && n.all (· == l.length)
@@ -412,7 +426,7 @@ end
 def fieldOK (decls : List TypeDecl) (nobjs : Nat) (m : MemberDecl) : Val → Bool
   | .absent => true
   | .byte _ => m.ty == 1
-  | .int v => m.ty == 2 && decide (InRange v)
+  | .int v => m.ty == 2 && decide (Wide v)
   | .real _ => m.ty == 3
   | .str s => m.ty == 10 && okString s
   | .ref i => m.ty == 8 && i ≤ nobjs
@@ -473,6 +487,25 @@ def hasDatalessStructArray : List Item → Bool
     fs.any (fun v => match v with
       | .structs n cols => decide (1 ≤ n) && !colsStore cols
       | _ => false) || hasDatalessStructArray r
+
+mutual
+/-- the value contains an integer outside `i32` (without `i32::MIN`) -/
+def valWide : Val → Bool
+  | .int v => !decide (InRange v)
+  | .ints _ l => l.any (fun v => !decide (InRange v))
+  | .structs _ cols => colsWide cols
+  | _ => false
+def colsWide : List Val → Bool
+  | [] => false
+  | v :: r => valWide v || colsWide r
+end
+
+/-- the file stores an INT value that does not fit the reader's `i32` (recorded finding
+`havok-int-beyond-i32`) -/
+def usesWideInt : List Item → Bool
+  | [] => false
+  | .type _ :: r => usesWideInt r
+  | .obj _ fs :: r => colsWide fs || usesWideInt r
 
 /-! ### the standard skeleton file -/
 
